@@ -121,6 +121,8 @@ def jobs(tier: str):
                 for cname, ctx in CONTEXTS:
                     if len(lits) == 3 and cname not in ("rX", "c", "w"):
                         continue
+                    if len(lits) == 2 and cname in ("rXY", "rNM", "rW", "wN", "rec") and tier != "quick":
+                        continue
                     if tier == "quick" and cname not in ("rX", "rN", "w") and not (cname.startswith("hc_") and len(lits) == 1):
                         continue
                     if cname.startswith("hc_") and bname == "none":
